@@ -78,6 +78,19 @@ func poison(codec frame.RawCodec, v ref.Version, compressed bool, c *mon.Ctx) {
 	}
 }
 
+// chunkReader returns at most n bytes per Read.
+type chunkReader struct {
+	r io.Reader
+	n int
+}
+
+func (c *chunkReader) Read(p []byte) (int, error) {
+	if len(p) > c.n {
+		p = p[:c.n]
+	}
+	return c.r.Read(p)
+}
+
 func compressible(op byte) bool {
 	return op != ref.OpStartup
 }
@@ -163,7 +176,11 @@ func one(c *mon.Ctx, codec frame.RawCodec, comp string, cs gen.Case, id string, 
 	b := buf.Bytes()
 	d.Bytes = lazyHex(b)
 	rd := bytes.NewReader(b)
-	f2, err := codec.DecodeFrame(rd)
+	var src io.Reader = rd
+	if hash(id)%3 == 1 {
+		src = &chunkReader{r: rd, n: 1 + int(hash(id)>>4)%11} // short reads, as a socket or bufio.Reader delivers them
+	}
+	f2, err := codec.DecodeFrame(src)
 	if err != nil {
 		d.Err = err.Error()
 		c.Violation("decode-error/"+comp+"/"+errClass(err), d)
